@@ -136,7 +136,7 @@ struct Diff {
         // the original run evaluates the number, the file records the UDQ as active and the restarted run evaluates the UDQ.
         if (a.is<std::string>() && a.is<double>()) { ambiguousUda = true; add(key + ".number-and-udq-name", "original holds the number " + num(a.get<double>()) + " and the UDQ name " + a.get<std::string>() + "; restarted " + (b.is<std::string>() ? "UDQ " + b.get<std::string>() : std::string("number"))); return; }
         const bool sa = a.is<std::string>(), sb = b.is<std::string>();
-        if (sa != sb) { add(key + ".kind", std::string("original ") + (sa ? "UDQ " + a.get<std::string>() : "number") + " restarted " + (sb ? "UDQ " + b.get<std::string>() : "number")); return; }
+        if (sa != sb) { ambiguousUda = true; add(key + ".kind", std::string("original ") + (sa ? "UDQ " + a.get<std::string>() : "number") + " restarted " + (sb ? "UDQ " + b.get<std::string>() : "number")); return; }
         if (sa) { if (a.get<std::string>() != b.get<std::string>()) add(key, "original " + a.get<std::string>() + " restarted " + b.get<std::string>()); return; }
         // A UDA that holds no number on one side only (the constructors from the restart file fill in zeros / defaults where the
         // keyword handlers leave the item unset) is a difference of representation: what the simulator reads are the evaluated
@@ -157,6 +157,13 @@ static const char* USYS[] = {"METRIC", "FIELD", "LAB", "PVT-M"};
 // effect is outside the compared field list stay (harmless context).  A keyword instance for which this function returns a
 // reason is removed from the generated schedule: the unchanged tree cannot carry it through a restart file, see C05.py.
 static std::string excludedKeyword(const gdeck::KwInst& kw) {
+    // The shared generator grows; only the keyword kinds this check has been validated with on the unchanged tree stay in.
+    static const std::set<std::string> validated = {
+        "WELSPECS", "COMPDAT", "WCONPROD", "WCONINJE", "WCONHIST", "WCONINJH", "GRUPTREE", "WELSEGS", "COMPSEGS", "WELOPEN", "WELTARG",
+        "WEFAC", "GEFAC", "GCONPROD", "GCONINJE", "WTEST", "WECON", "WLIST", "WPIMULT", "WTMULT", "TUNING", "NEXTSTEP", "RPTRST", "RPTSCHED",
+        "UDQ", "ACTIONX", "GUIDERAT", "WGRUPCON", "LIFTOPT", "WLIFTOPT", "GLIFTOPT", "VFPPROD", "BRANPROP", "NETBALAN", "DRSDT", "WRFTPLT",
+        "WPAVE", "WWPAVE", "COMPLUMP", "COMPORD", "GCONSUMP", "GECON", "WINJMULT", "WHISTCTL"};
+    if (!validated.count(kw.name)) return "not-in-validated-set:" + kw.name;
     if (kw.name == "GCONPROD" && kw.text.find("'FLD'") != std::string::npos)
         return "GCONPROD-mode-FLD";      // IGRP encodes FLD as 0 (= NONE) with exceed action 4: comes back as NONE / RATE
     if (kw.name == "WHISTCTL")
@@ -434,7 +441,7 @@ static void cmpWell(const Well& a, const Well& b, const SchedCmpOpts& opt, Diff&
         if (open && !ctrlFree) d.enm("well.prod.controlMode", p.controlMode, q.controlMode);
         d.enm("well.prod.whistctl_cmode", p.whistctl_cmode, q.whistctl_cmode);
         // what the simulator sees: limits evaluated against the summary state (skipped when a UDA of this well has been reported as
-        // holding a number and a name: the evaluated values differ as a consequence)
+        // holding a number and a name, or as a number on one side and a UDQ on the other: the evaluated values differ as a consequence)
         if (opt.st && !d.ambiguousUda) {
             try {
                 const auto ca = a.productionControls(*opt.st), cb = b.productionControls(*opt.st);
@@ -1254,7 +1261,7 @@ int main(int argc, char** argv) {
                     // documented exclusion (empty well lists leave no trace in the file): a later WLIST ADD to such a list is refused
                     if (msg.find("Invalid well list") != std::string::npos) {
                         bool emptyList = false;
-                        for (const char* l : {"*L1", "*L2", "*L3", "*AL0", "*AL1", "*AL2"}) if (sched[simStep].wlist_manager().hasList(l) && sched[simStep].wlist_manager().getList(l).size() == 0) emptyList = true;
+                        for (const char* l : {"*L1", "*L2", "*L3", "*AL0", "*AL1", "*AL2", "*QL0", "*QL1"}) if (sched[simStep].wlist_manager().hasList(l) && sched[simStep].wlist_manager().getList(l).size() == 0) emptyList = true;
                         if (emptyList) { rep.count("restart_refused_because_of_empty_well_list"); continue; }
                     }
                     const bool noCtrl = msg.find("Cannot convert integer value -10 to") != std::string::npos;   // -10 = WMCtlUnk, a well that has no control mode yet
